@@ -334,10 +334,12 @@ fn check_pow<T: Fixed>(pc: &PowCtx, a: &BigInt, av: T, ei: usize, l: &mut Local)
     }
     let neg_result = a.is_negative() && n % 2 == 1;
     let missed = |l: &mut Local, exact: &BigInt| {
+        // an exact result of exactly MIN that is refused is the narrowing defect also seen by C24 (same key prefix)
+        let kind = if exact == &ty.min { "exact-MIN-rejected" } else { "powi-exact-result-missed" };
         report(
             l,
-            "powi-exact-result-missed",
-            format!("powi-exact-result-missed:{}:{}", exp_class(e), T::NAME),
+            kind,
+            if exact == &ty.min { format!("exact-MIN-rejected:{}:checked_powi", T::NAME) } else { format!("powi-exact-result-missed:{}:{}", exp_class(e), T::NAME) },
             format!("{}: the exact result {exact} (raw) is representable but the real code returned {}", head(), show_got(&got)),
             case(),
         );
